@@ -108,6 +108,37 @@ Section C06.
         (sum_vals K k0 kadd (map dim bu) (fun beta => kmul (gapply K tru gu (map s up) beta)
           (value ts summed (upds (upds s lo gamma) up beta))))).
   Proof. exact (gate_sandwich_sound K k0 k1 kadd kmul ksub kopp Kring dim). Qed.
+  (* OPTIONS (transpose, dagger), all four combinations, gate tensor built as the code
+     builds it (Model.gate_opts: dagger conjugates the array and FORCES the transposed
+     wiring - transpose is implied by dagger): the operator applied is
+     G (ff), G^T (transpose), G^dagger (dagger), G^dagger (both).  kconj is arbitrary. *)
+  Variable kconj : K -> K.
+  Theorem C06_gate_options_sound : forall tr dg (g : gfun K) ts inds bnds summed s,
+    Forall wf ts -> NoDup bnds -> length inds = length bnds ->
+    (forall b, In b bnds -> ~ In b inds /\ ~ In b summed /\ ~ in_net K ts b) ->
+    (forall i, In i inds -> ~ In i summed) ->
+    value (opt_gate_tensor K kconj tr dg g inds bnds :: map (reindex K (Gate.rename inds bnds)) ts) (bnds ++ summed) s
+    = sum_vals K k0 kadd (map dim bnds)
+        (fun beta => kmul (if dg then kconj (g beta (map s inds)) else if tr then g beta (map s inds) else g (map s inds) beta)
+                          (value ts summed (upds s inds beta))).
+  Proof. exact (gate_options_sound K k0 k1 kadd kmul ksub kopp Kring dim kconj). Qed.
+
+  (* sandwich options, all four combinations: upper gets G / G^T / G^dagger / G^dagger,
+     lower gets conj G / G^dagger / G^T / G^T *)
+  Theorem C06_sandwich_options_sound : forall tr dg (g : gfun K) ts up lo bu bl summed s,
+    Forall wf ts -> NoDup bu -> NoDup bl -> length up = length bu -> length lo = length bl ->
+    (forall b, In b bu -> ~ In b up /\ ~ In b lo /\ ~ In b bl /\ ~ In b summed /\ ~ in_net K ts b) ->
+    (forall b, In b bl -> ~ In b up /\ ~ In b lo /\ ~ In b bu /\ ~ In b summed /\ ~ in_net K ts b) ->
+    (forall i, In i up -> ~ In i summed /\ ~ In i lo) -> (forall i, In i lo -> ~ In i summed) ->
+    value (sandwich_lower K kconj tr dg g lo bl
+           :: map (reindex K (Gate.rename lo bl)) (sandwich_upper K kconj tr dg g up bu :: map (reindex K (Gate.rename up bu)) ts))
+          (bl ++ bu ++ summed) s
+    = sum_vals K k0 kadd (map dim bl) (fun gamma =>
+        kmul (if dg then g gamma (map s lo) else if tr then kconj (g gamma (map s lo)) else kconj (g (map s lo) gamma))
+        (sum_vals K k0 kadd (map dim bu) (fun beta =>
+          kmul (if dg then kconj (g beta (map s up)) else if tr then g beta (map s up) else g (map s up) beta)
+               (value ts summed (upds (upds s lo gamma) up beta))))).
+  Proof. exact (sandwich_options_sound K k0 k1 kadd kmul ksub kopp Kring dim kconj). Qed.
 End C06.
 
 Print Assumptions C06_gate_lazy_sound.
@@ -118,6 +149,8 @@ Print Assumptions C06_split_exact_sound.
 Print Assumptions C06_gate_exact_modes_sound.
 Print Assumptions C06_swap_sound.
 Print Assumptions C06_gate_sandwich_sound.
+Print Assumptions C06_gate_options_sound.
+Print Assumptions C06_sandwich_options_sound.
 
 (* the executable Z[i] instance evaluated by the correspondence IS the theorem's right-hand side *)
 Theorem C06_executable_instance : forall dims ts inds bnds summed tr gshape gdata s,
@@ -130,6 +163,29 @@ Theorem C06_executable_instance : forall dims ts inds bnds summed tr gshape gdat
   = op_entry dims ts summed inds tr gshape gdata s.
 Proof. exact op_entry_is_lazy_gate. Qed.
 Print Assumptions C06_executable_instance.
+
+(* the executed option handling (what the correspondence evaluates for every
+   (transpose, dagger) pair) is the value of the network built as the code builds it *)
+Theorem C06_executable_options_instance : forall dims ts inds bnds summed tr dg gshape gdata s,
+  Forall (wf G) ts -> NoDup bnds -> length inds = length bnds ->
+  map (lookup dims) bnds = map (lookup dims) inds ->
+  (forall b, In b bnds -> ~ In b inds /\ ~ In b summed /\ ~ in_net G ts b) ->
+  (forall i, In i inds -> ~ In i summed) ->
+  gvalue dims (opt_gate_tensor G TNExec.gconj tr dg (gentry gshape gdata) inds bnds
+               :: map (reindex G (Gate.rename inds bnds)) ts) (bnds ++ summed) s
+  = op_entry dims ts summed inds (snd (gate_opts tr dg)) gshape
+             (if fst (gate_opts tr dg) then map TNExec.gconj gdata else gdata) s.
+Proof. exact op_entry_opts_is_options_gate. Qed.
+Print Assumptions C06_executable_options_instance.
+
+(* the option table itself: (conjugate?, transposed wiring?) for (transpose, dagger) *)
+Theorem C06_gate_opts_table :
+  gate_opts false false = (false, false) /\ gate_opts true false = (false, true)
+  /\ gate_opts false true = (true, true) /\ gate_opts true true = (true, true)
+  /\ (forall tr, sandwich_opts tr true = (true, false, true))
+  /\ sandwich_opts false false = (false, true, false) /\ sandwich_opts true false = (false, true, true).
+Proof. repeat split; try reflexivity. Qed.
+Print Assumptions C06_gate_opts_table.
 
 (* ---- label bookkeeping (fresh bond naming, outer labels) ---- *)
 Theorem C06_fresh_labels_fresh : forall tn inds b, In b (fresh_labels tn inds) ->
